@@ -77,6 +77,20 @@ Definition db_step (lock : N) (st : N * list N) : N * list N :=
 Definition db_pgnos (lock commit : N) : list N :=
   rev_append (snd (N.iter commit (db_step lock) (1, []))) [].
 
+(** where writeLTXFromDB takes the CONTENT of page [pg] from: the WAL frame the
+    page map points to ([walFile.ReadAt(data, offset+WALFrameHeaderSize)]) or the
+    database file at [(pgno-1)*pageSize] ([db.f.ReadAt(data, offset)]).
+    (1, byte offset in the database file) | (2, byte offset of the page data in the WAL) *)
+Definition wal_frame_header_size : N := 24.
+Definition db_source (ps : N) (pm : list (N * N)) (pg : N) : N * N :=
+  match pm_get pg pm with
+  | Some off => (2, off + wal_frame_header_size)
+  | None => (1, (pg - 1) * ps)
+  end.
+(** the page frames of a full-database encoding: page number and content source, in order *)
+Definition db_content (ps commit : N) (pm : list (N * N)) : list (N * (N * N)) :=
+  map (fun pg => (pg, db_source ps pm pg)) (db_pgnos (lockPgno ps) commit).
+
 (** writeLTXFromWAL:
       pgnos := keys(pageMap)
       if commit > prevCommit {
